@@ -14,6 +14,9 @@ CONSTANTS
   Window = 1024
   Retention = 3
   BurstSizes = {1, 2}
+  PskIds = {}
+  PskValues = {"none"}
+  Deviations = {"F12"}
   MaxApps = 30
   Depth = 60
   WProgress = 45
